@@ -784,6 +784,51 @@ def check_search(res, facts, prop):
     return n_ret
 
 
+def check_tiling(res, facts):
+    """C19, chromatic clause ("for the chromatic scale without history the fraction lies in [0, 1) semitone"): a necessary
+    condition is that the candidate voltages the scan compares against tile the octave exactly, i.e. the step between
+    neighbouring pitch classes times 12 equals the step between octaves.  Otherwise the twelfth bucket of every octave is
+    short: an input in the gap below an octave boundary is at least one half step away from B and is reported as the next C,
+    with a negative fraction.  The two steps are read off the candidate term the scan stores (coefficients of the pitch-class
+    and octave loop variables), not off named constants."""
+    qz = Qz(facts)
+    where = where_of(facts, FNN) if FNN in facts.fns else where_of(facts, Q + '::convert')
+    it = qz.interp()
+    st = State()
+    q = qz.quantizer(it, st, cached='fresh')
+    v = float_sym(st, 'v', 0, qz.VMAX)
+    run = SearchRun(qz, 'A', 'A')
+    it.loop_hook = run.hook
+    try:
+        outs, cell = run_method(it, st, Q + '::convert', q, [v])
+    except InterpError as e:
+        res.ob('R-TILING', 'candidate steps', False, 'analysis failed: %s' % e, where)
+        return
+    res.absorb(it)
+    steps = set()
+    if run.acc_locals and len(run.acc_locals) == 2:
+        form = getattr(run, 'form', 'uv')
+        for o in sem_iter(outs, include_loopback=True):
+            if o.status != 'loopback':
+                continue
+            b1 = run.acc_get(o.state, 'best')
+            if not isinstance(b1, Num) or b1.term.const_value() is not None:
+                continue
+            c = best_to_volt(qz, b1.term, o.ctx, form)
+            co = sorted(int(x) for m, x in c.t.items() if m != () and len(m) == 1 and m[0][1] == 1 and x.denominator == 1)
+            if len(co) == 2 and len(c.t) == 2:
+                steps.add((co[0], co[1]))
+    ok_shape = len(steps) == 1
+    res.ob('R-TILING', 'candidate = pitch class * step + octave * octave-step', ok_shape, 'candidate steps found: %s' % sorted(steps), where, key='R-TILING:shape', nontrivial=True)
+    if not ok_shape:
+        return
+    h, o_ = next(iter(steps))
+    res.ob('R-TILING', 'twelve pitch-class steps fill one octave step exactly', 12 * h == o_,
+           'candidate voltages are pc*%d + octave*%d microvolts: 12*%d = %d != %d, the last bucket of every octave is %d uV short; e.g. the chromatic '
+           'scale at v = 0.999997 V is reported as note 12 (1.0 V) with fraction -2.98e-6 V although the clause demands a fraction in [0, 1) semitone'
+           % (h, o_, h, 12 * h, o_, o_ - 12 * h), where, key='R-TILING:12H==O')
+
+
 def _abs_cmp(ctx, op, d, x):
     """decide `|d| op x` from the path facts without knowing the sign of d (None = undecided is reported as False)"""
     a = t_abs(d, ctx)
